@@ -23,22 +23,29 @@ def run(ctx: Ctx) -> int:
     ctx.functions_encoded.append("stage 2: checker/expr_checker.py + stmt_checker.py + cfg_checker.py (operator -> dunder resolution incl. reflected forms, inserted coercions, for -> __iter__/__next__/Option protocol, "
                                  "place decomposition), std/iter.py range / Range.__next__ and std/num.py bindings as reached by the programs, interpreted by lib/e5.py")
     ctx.bounds["stage 2"] = "first %d programs of the corpus through the checked CFGs; opaque results bounded by |r| <= 1000; paths with a 64-bit overflow, inside a known C04 region or out of fuel are outside" % ctx.pick(36, 500)
-    ctx.outside_claim = ["lowering of the checked CFG to HUGR (block signatures, port order) and everything in the back end", "64-bit wrap-around of arithmetic (C04)",
-                         "floats, structs, arrays", "programs larger than the generator's depth bound", "programs inside the regions of the known findings (probed separately)"]
+    ctx.outside_claim = ["HUGR validity, linear values and everything after the emitted HUGR (packaging, validation, LLVM lowering, run time)", "64-bit wrap-around of arithmetic (C04)",
+                         "field mutation of structs (rejected by /repo), nat arithmetic at HUGR level", "programs larger than the generator's depth bound", "programs inside the regions of the known findings (probed separately)"]
     ctx.assumptions = ["edge convention successors[1] = true branch, successors[0] = false branch", "models of the iterator protocol nodes (MakeIter / IterNext) in lib/e4.py"]
     # stage 2 (E5): the same programs through the *checked* CFGs of the real front end (operator resolution, coercions, iterator protocol, 64-bit arithmetic)
     jobs += e4_check.jobs_for(ctx, "c03", n, batch=3, timeout=ctx.pick(300, 1500), total=n + nfixed, harness="harness/E5_equiv.py", fn="h_equiv5",
                               upto=ctx.pick(36, 500))
+    # stage 3 (E7): the same programs through the HUGR that /repo's back end emits for them (lib/e7.py)
+    jobs += e4_check.jobs_for(ctx, "c03", n, batch=3, timeout=ctx.pick(300, 1500), total=n + nfixed, harness="harness/E7_equiv.py", fn="h_equiv7",
+                              upto=ctx.pick(36, 400))
+    ctx.functions_encoded.append("stage 3: compiler/cfg_compiler.py, expr_compiler.py, stmt_compiler.py, func_compiler.py, core.py (CompilerContext.compile, track_hugr_side_effects, "
+                                 "monomorphization) and the std compilers reached by the programs: the emitted HUGR is interpreted by lib/e7.py")
+    ctx.bounds["stage 3"] = "first %d programs of the corpus through the emitted HUGR; same value bounds; in addition every dataflow region must order its possibly side-effecting nodes" % ctx.pick(36, 400)
     ctx.crosshair(jobs)
     v = e4_check.collect_verdicts(ctx)
     e5r = e4_check.collect_e5(ctx)
     ctx.extra["e5"] = e5r
+    ctx.extra["e7"] = e4_check.collect_e5(ctx, "e7report")
     ctx.samples.extend({"program": p["src"], "verdict": p["verdict"]} for p in v["programs"][:3])
     return ctx.finish(
         level="translation_validation",
         rule="program = one corpus program accepted by the real check(); per program CrossHair explores every path of (CPython on the source || walk over the real CFG) for symbolic inputs",
         explanation="translation validation of the real CFGBuilder's output against CPython's execution of the same source, for all inputs within the bounds (CrossHair/z3), on a generated corpus",
         trusted_base=["CPython 3.12", "crosshair-tool 0.0.110", "z3 5.1", "import shim", "lib/e4.py block walker"],
-        extra_cov={"stage2_checked_cfg": ctx.extra.get("e5"), "programs": max(v["accepted"], 1), "disagreements_checked": len(ctx.violations) + len(ctx.known_hits), "programs_rejected_by_checker": v["rejected"],
+        extra_cov={"stage2_checked_cfg": ctx.extra.get("e5"), "stage3_emitted_hugr": ctx.extra.get("e7"), "programs": max(v["accepted"], 1), "disagreements_checked": len(ctx.violations) + len(ctx.known_hits), "programs_rejected_by_checker": v["rejected"],
                    "rejected_why": v["rejected_why"], "distinct_nontrivial": v["accepted"]},
     )
